@@ -7631,7 +7631,7 @@ only_parse:
 
             /* number is a proximity position */
             if (set2.type == LYXP_SET_NUMBER) {
-                if ((long long)set2.val.num == orig_pos) {
+                if (set2.val.num == orig_pos) {
                     set2.val.num = 1;
                 } else {
                     set2.val.num = 0;
